@@ -63,6 +63,7 @@ const (
 	stRunnable taskState = iota
 	stBlocked
 	stDone
+	stExternal // waiting for something outside the system (a peer that stopped sending)
 )
 
 // Task is one simulated thread of control.
@@ -461,9 +462,62 @@ func (s *Sim) block(t *Task, on string) {
 	s.steps++
 	next := s.pick(t)
 	if next == nil {
-		s.abortNow("deadlock", s.waitGraph())
+		next = s.noRunnable()
 	}
 	s.switchTo(t, next, KBlock, on)
+	t.blockedOn = ""
+}
+
+// noRunnable decides what happens when no task can run.  Tasks waiting for
+// an external event (a client that stopped sending) are released only when
+// everything else has finished; if instead other tasks are blocked on locks,
+// the system is wedged behind the stalled peer; with no external waiter at
+// all it is a deadlock.  It returns the task to run next or aborts the run.
+func (s *Sim) noRunnable() *Task {
+	var ext *Task
+	blocked := false
+	for _, x := range s.tasks {
+		switch x.state {
+		case stExternal:
+			if ext == nil {
+				ext = x
+			}
+		case stBlocked:
+			blocked = true
+		}
+	}
+	if ext == nil {
+		s.abortNow("deadlock", s.waitGraph())
+	}
+	if blocked {
+		s.abortNow("wedged", s.waitGraph())
+	}
+	ext.state = stRunnable
+	return ext
+}
+
+// WaitExternal parks the calling task until nothing else in the system can
+// run: the peer it is waiting for never acts again during the run.  It
+// returns when the simulator gives up on the peer (the connection is then
+// reported as reset by the caller).
+func WaitExternal(reason string) {
+	s := active
+	if s == nil || s.cur == nil || s.aborted {
+		return
+	}
+	t := s.cur
+	t.state = stExternal
+	t.blockedOn = reason
+	t.idx++
+	s.steps++
+	next := s.pick(t)
+	if next == nil {
+		next = s.noRunnable()
+	}
+	if next != t {
+		s.switchTo(t, next, KBlock, reason)
+	}
+	t.state = stRunnable
 	t.blockedOn = ""
 }
 
@@ -472,6 +526,15 @@ func (s *Sim) waitGraph() string {
 	for _, x := range s.tasks {
 		switch x.state {
 		case stBlocked:
+			var held []string
+			for k, n := range x.holding {
+				if n > 0 {
+					held = append(held, k)
+				}
+			}
+			sort.Strings(held)
+			fmt.Fprintf(&b, "task %d (%s) waits for %s holding %v; ", x.ID, x.Name, x.blockedOn, held)
+		case stExternal:
 			var held []string
 			for k, n := range x.holding {
 				if n > 0 {
@@ -508,21 +571,35 @@ func (s *Sim) exit(t *Task) {
 	t.idx++
 	next := s.pick(t)
 	if next == nil {
-		alldone := true
+		alldone, ext, blocked := true, (*Task)(nil), false
 		for _, x := range s.tasks {
 			if x.state != stDone {
 				alldone = false
 			}
+			if x.state == stExternal && ext == nil {
+				ext = x
+			}
+			if x.state == stBlocked {
+				blocked = true
+			}
 		}
-		if !alldone {
+		switch {
+		case alldone:
+			close(s.done)
+			return
+		case ext != nil && !blocked:
+			ext.state = stRunnable
+			next = ext
+		default:
 			s.aborted = true
 			s.AbortReason = "deadlock"
+			if ext != nil {
+				s.AbortReason = "wedged"
+			}
 			s.AbortDetail = s.waitGraph()
 			s.exit(t)
 			return
 		}
-		close(s.done)
-		return
 	}
 	s.note(t, next, KExit, "exit")
 	s.cur = next
